@@ -99,7 +99,7 @@ def sample(ctx, trace, source, frac=0.5, max_samples=6):
 
 
 # --------------------------------------------------------------------------- stages
-BASE = {"Family": '"pair"', "MaxLen": 5, "A0": 97, "A1": 98, "MaxBlocks": "{1, 2, 3, 64}", "MinMatch": 2, "ExtraChunk": 1,
+BASE = {"Family": '"pair"', "MaxLen": 5, "A0": 97, "A1": 98, "MaxBlocks": "{1, 2, 64}", "MinMatch": 2, "ExtraChunk": 1,
         "Defects": "{}", "ArbOldLen": 1, "ArbX": "{0, 1, 2}", "ArbZPos": "{0, 1}", "ArbZNeg": "{2}", "ArbEntries": 2,
         "ArbDiffBytes": "{1, 255}", "ArbExtraBytes": "{7}", "ArbBlockLen": 2, "ArbSizes": "{0, 1, 2, 3}"}
 
@@ -242,7 +242,8 @@ def replay(ctx, kd):
 
 
 def selftest(ctx, traces, kd):
-    """Binding self-test: corrupt one logged field / drop one event -> the monitor must flag exactly that."""
+    """Binding self-test: corrupt one logged field of five different records and drop one event -> the monitor
+    must flag exactly those (one monitor run on the original lines, one on the modified ones)."""
     lines = []
     for t, limit in traces:
         ls = lib.read_lines(t)
@@ -257,69 +258,70 @@ def selftest(ctx, traces, kd):
         open(p, "w").write("\n".join(ls) + "\n")
         return p
 
-    base = lib.tlc_trace(ctx, MODULE_T, cfg, write("selftest_0.ndjson", lines), heap="3g")
-    bad = set(base["violations"]) | {d[0] for d in base["deviations"]}
-    tier_of = {}
-    cur = None
-    for i, l in enumerate(lines):
-        if lib.is_new(l):
-            cur = json.loads(l)["tier"]
-        tier_of[i] = cur
-
-    def find(pred):
+    with ThreadPoolExecutor(max_workers=2) as ex:
+        fbase = ex.submit(lib.tlc_trace, ctx, MODULE_T, cfg, write("selftest_0.ndjson", lines), heap="3g")
+        # the modified trace is built from the original lines only, so it can be judged concurrently
+        tier_of, run_of = {}, {}
+        cur, start = None, 0
         for i, l in enumerate(lines):
-            if lib.is_new(l) or (i + 1) in bad or '"op":"patch"' not in l:
-                continue
-            e = json.loads(l)
-            if e["res"]["ok"] and pred(e, tier_of[i]):
-                return i, e
-        raise lib.ToolError("self-test: no suitable event in the trace")
+            if lib.is_new(l):
+                cur, start = json.loads(l)["tier"], i
+            tier_of[i], run_of[i] = cur, start
+        used_runs = set()
+        mod = list(lines)
+        targets = {}
 
-    jobs = {}
+        def corrupt(name, pred, change):
+            for i, l in enumerate(lines):
+                if '"op":"patch"' not in l or run_of[i] in used_runs:
+                    continue
+                e = json.loads(l)
+                if e["res"]["ok"] and pred(e, tier_of[i]):
+                    change(e)
+                    mod[i] = json.dumps(e, separators=(",", ":"))
+                    used_runs.add(run_of[i])
+                    targets[name] = i + 1
+                    return
+            raise lib.ToolError(f"self-test: no suitable event for {name}")
 
-    def judge_with(name, i, e):
-        ls = list(lines)
-        ls[i] = json.dumps(e, separators=(",", ":"))
-        path = write(name, ls)
-        return lambda: (lambda v: (i + 1) in v["violations"] and (i + 1) not in bad)(lib.tlc_trace(ctx, MODULE_T, cfg, path, heap="3g"))
+        def flip_out(e):
+            e["outs"][0]["b"][1] ^= 1
 
-    res = {}
-    # (a1) one byte of one applier's output
-    i, e = find(lambda e, t: t == "short" and e["outs"][0]["ok"] and len(e["outs"][0]["b"]) >= 3)
-    e["outs"][0]["b"][1] ^= 1
-    jobs["corrupt_output_byte_flagged"] = judge_with("selftest_a1.ndjson", i, e)
-    # (a2) one byte of the recorded diff block: only the independent patcher (ii) can notice
-    i, e = find(lambda e, t: t == "short" and len(e["diff"]) >= 2)
-    e["diff"][len(e["diff"]) // 2] ^= 0x40
-    jobs["corrupt_diff_block_flagged"] = judge_with("selftest_a2.ndjson", i, e)
-    # (a3) the size stated in the header
-    i, e = find(lambda e, t: t == "short" and e["hdr"][24] < 255)
-    e["hdr"][24] += 1
-    jobs["corrupt_header_size_flagged"] = judge_with("selftest_a3.ndjson", i, e)
-    # (a4) long tier: a digest of an output, and a control entry's diff size
-    i, e = find(lambda e, t: t == "long" and e["outs"][0]["ok"])
-    e["outs"][0]["md5"] = "0" * 32
-    jobs["corrupt_long_digest_flagged"] = judge_with("selftest_a4.ndjson", i, e)
-    i, e = find(lambda e, t: t == "long" and len(e["ctrl3"]) >= 2)
-    e["ctrl3"][0][0] += 1
-    jobs["corrupt_long_control_flagged"] = judge_with("selftest_a5.ndjson", i, e)
-    # (b) drop one patch event inside a run
-    idx = next(i for i, l in enumerate(lines) if i > 10 and '"op":"patch"' in l)
-    ld = list(lines)
-    del ld[idx]
-    pd = write("selftest_b.ndjson", ld)
+        def flip_diff(e):
+            e["diff"][len(e["diff"]) // 2] ^= 0x40
 
-    def dropped():
-        vd = lib.tlc_trace(ctx, MODULE_T, cfg, pd, heap="3g")
-        return any(idx + 1 <= x <= idx + 12 for x in vd["violations"]) and len(vd["violations"]) > len(base["violations"])
+        def bump_size(e):
+            e["hdr"][24] += 1
 
-    jobs["drop_one_event_flagged"] = dropped
-    with ThreadPoolExecutor(max_workers=min(lib.NCPU, len(jobs))) as ex:
-        futs = {k: ex.submit(f) for k, f in jobs.items()}
-        res = {k: f.result() for k, f in futs.items()}
+        def zero_md5(e):
+            e["outs"][0]["md5"] = "0" * 32
+
+        def bump_ctrl(e):
+            e["ctrl3"][0][0] += 1
+
+        # (a1) one byte of one applier's output; (a2) one byte of the recorded diff block - only the independent
+        # patcher (ii) can notice; (a3) the size stated in the header; (a4) long tier: the digest of an output;
+        # (a5) long tier: a control entry's diff size
+        corrupt("corrupt_output_byte_flagged", lambda e, t: t == "short" and e["outs"][0]["ok"] and len(e["outs"][0]["b"]) >= 3, flip_out)
+        corrupt("corrupt_diff_block_flagged", lambda e, t: t == "short" and len(e["diff"]) >= 2, flip_diff)
+        corrupt("corrupt_header_size_flagged", lambda e, t: t == "short" and e["hdr"][24] < 255, bump_size)
+        corrupt("corrupt_long_digest_flagged", lambda e, t: t == "long" and e["outs"][0]["ok"], zero_md5)
+        corrupt("corrupt_long_control_flagged", lambda e, t: t == "long" and len(e["ctrl3"]) >= 2, bump_ctrl)
+        # (b) drop one patch event of yet another run (last, so that the line numbers above stay valid)
+        idx = max(i for i, l in enumerate(lines) if '"op":"patch"' in l and run_of[i] not in used_runs)
+        del mod[idx]
+        vmod = lib.tlc_trace(ctx, MODULE_T, cfg, write("selftest_1.ndjson", mod), heap="3g")
+        base = fbase.result()
+    shift = lambda ln: ln if ln <= idx else ln - 1          # line numbers of the modified trace (one line deleted)
+    clean = {shift(x) for x in set(base["violations"]) | {d[0] for d in base["deviations"]} if x != idx + 1}
+    targets = {k: shift(ln) for k, ln in targets.items()}
+    got = set(vmod["violations"])
+    res = {k: ln in got and ln not in clean for k, ln in targets.items()}
+    res["drop_one_event_flagged"] = any(idx + 1 <= x <= idx + 12 for x in got - clean)
+    res["nothing_else_flagged"] = all(x in clean or x in targets.values() or idx + 1 <= x <= idx + 12 for x in got)
     ctx.cov["binding_selftest"] = res
     if not all(res.values()):
-        raise lib.ToolError(f"binding self-test failed: {res}")
+        raise lib.ToolError(f"binding self-test failed: {res} (flagged {sorted(got)}, targets {targets}, dropped line {idx + 1})")
 
 
 def run(ctx):
